@@ -80,6 +80,7 @@ def parseTree : Nat → List String → Option (Expr × List String)
           else if t = "L" then some (.logical b, rest) else if t = "R" then some (.ref b, rest) else none
 
 structure St where
+  defs : List DefName := []
   envI : List (Str × Impl.CellArg Float) := []
   envS : List (Str × Spec.Val Float) := []
 
@@ -124,9 +125,33 @@ def sameRes (a b : Except Impl.MErr (Impl.Arg Float)) : Bool := showRes a == sho
 def close (a b : Float) : Bool :=
   a == b || (a - b).abs ≤ 1e-12 * (if a.abs > b.abs then a.abs else b.abs)
 
+def splitCommas (s : Str) : List Str :=
+  let rec go : List Nat → List Nat → List Str → List Str
+    | [], cur, acc => (cur.reverse :: acc).reverse
+    | b :: rest, cur, acc => if b = 44 then go rest [] (cur.reverse :: acc) else go rest (b :: cur) acc
+  go s [] []
+
+/-- `d:<name>:<sheet>` (token) / `D:<name>:<sheet>` (tree leaf): a defined name used on a sheet.
+The model performs the lookup: Impl through `getDefinedNameRefTo`'s scan, Spec through the
+shadowing rule; an invisible name keeps its text (unknown key → #NAME?). -/
+def resolveWord (st : St) (w : String) : String :=
+  match w.splitOn ":" with
+  | [t, n, c] =>
+    if t = "d" ∨ t = "D" then
+      match hexBytes n, hexBytes c with
+      | some name, some cur =>
+        let key : Str :=
+          if t = "d" then
+            (let r := Impl.definedNameRefTo st.defs name cur; if r = [] then name else r)
+          else (Spec.resolveName st.defs name cur).getD name
+        (if t = "d" then "r:" else "R:") ++ hexOut key
+      | _, _ => w
+    else w
+  | _ => w
+
 /-- evaluate tokens|tree; returns the answer line and the two values -/
 def evalLine (st : St) (w : List String) : Option (String × Except Impl.MErr (Impl.Arg Float) × Spec.Val Float) :=
-  match splitBar w with
+  match splitBar (w.map (resolveWord st)) with
   | toks :: tree :: more =>
     match toks.mapM parseTok, parseTree 4000 tree with
     | some ts, some (e, []) =>
@@ -157,7 +182,7 @@ def step (st : St) (w : List String) : St × String :=
     | none => (st, "bad-op")
     | some key =>
       let put (i : Impl.CellArg Float) (s : Spec.Val Float) : St × String :=
-        ({ envI := (key, i) :: st.envI, envS := (key, s) :: st.envS }, "ok")
+        ({ st with envI := (key, i) :: st.envI, envS := (key, s) :: st.envS }, "ok")
       match kind, rest with
       | "b", [] => put .empty .blank
       | "n", [b] => (match bitsOf b with
@@ -174,7 +199,7 @@ def step (st : St) (w : List String) : St × String :=
             | .ok (.str s) => .str s
             | .ok (.err m) => .err m
             | .error _ => .empty
-          ({ envI := (key, i) :: st.envI, envS := (key, sp) :: st.envS }, line)
+          ({ st with envI := (key, i) :: st.envI, envS := (key, sp) :: st.envS }, line)
         | none => (st, "bad-op"))
       | _, _ => (st, "bad-op")
   | "ev" :: body =>
@@ -187,13 +212,29 @@ def step (st : St) (w : List String) : St × String :=
       | "MIN" => some .min | "MAX" => some .max | "PRODUCT" => some .product | _ => none
     match fn?, splitBar rest with
     | some fn, keys :: _ =>
-      (match keys.mapM hexBytes with
-       | some ks =>
-         let ci := ks.map fun k => (st.lookI k).getD .empty
-         let cs := ks.map fun k => (st.lookS k).getD .blank
+      -- an item is a cell key or `d:<name>:<sheet>` (a defined range name used on that sheet)
+      let item (impl : Bool) (w : String) : Option (List Str) :=
+        match w.splitOn ":" with
+        | ["d", n, c] =>
+          (match hexBytes n, hexBytes c with
+           | some name, some cur =>
+             if impl then some (splitCommas (Impl.definedNameRefTo st.defs name cur))
+             else some (splitCommas ((Spec.resolveName st.defs name cur).getD []))
+           | _, _ => none)
+        | _ => (hexBytes w).map fun k => [k]
+      (match keys.mapM (item true), keys.mapM (item false) with
+       | some ki, some ksp =>
+         let ci := ki.flatten.map fun k => (st.lookI k).getD .empty
+         let cs := ksp.flatten.map fun k => (st.lookS k).getD .blank
          (st, showRes (Impl.aggregate fn ci) ++ " S=" ++ showSpec (Spec.aggregate fn cs))
-       | none => (st, "bad-op"))
+       | _, _ => (st, "bad-op"))
     | _, _ => (st, "bad-op")
+  | ["main", _] => (st, "ok")
+  | ["defname", n, sc, ref] =>
+    (match hexBytes n, hexBytes sc, hexBytes ref with
+     | some name, some scope, some r =>
+       ({ st with defs := st.defs ++ [{ name := name, scope := scope, refersTo := r }] }, "ok")
+     | _, _, _ => (st, "bad-op"))
   | "evt" :: body =>
     match splitBar body with
     | toks :: _ =>
